@@ -24,6 +24,96 @@ import (
 
 const RepoModule = "github.com/cosmos/cosmos-proto"
 
+var libPkgs = map[string]bool{RepoModule + "/runtime": true, RepoModule + "/anyutil": true, RepoModule + "/any": true, RepoModule + "/support/timepb": true, RepoModule + "/rapidproto": true, RepoModule: true}
+
+// PackageVarWrites lists assignments to (or address-of / pointer-method calls on) package-level variables inside function bodies.
+func PackageVarWrites(p *packages.Package) []string {
+	info := p.TypesInfo
+	if info == nil {
+		return nil
+	}
+	pkgVars := map[types.Object]bool{}
+	for _, n := range p.Types.Scope().Names() {
+		if v, ok := p.Types.Scope().Lookup(n).(*types.Var); ok {
+			pkgVars[v] = true
+		}
+	}
+	root := func(x ast.Expr) *ast.Ident {
+		for {
+			switch t := x.(type) {
+			case *ast.ParenExpr:
+				x = t.X
+			case *ast.SelectorExpr:
+				x = t.X
+			case *ast.IndexExpr:
+				x = t.X
+			case *ast.StarExpr:
+				x = t.X
+			case *ast.Ident:
+				return t
+			default:
+				return nil
+			}
+		}
+	}
+	var out []string
+	for _, f := range p.Syntax {
+		// generated protoc-gen-go files initialise their own tables
+		gen := false
+		for _, cg := range f.Comments {
+			if cg.Pos() < f.Package && strings.Contains(cg.Text(), "Code generated") {
+				gen = true
+			}
+		}
+		if gen {
+			continue
+		}
+		for _, d := range f.Decls {
+			fd, ok := d.(*ast.FuncDecl)
+			if !ok || fd.Body == nil {
+				continue
+			}
+			ast.Inspect(fd.Body, func(n ast.Node) bool {
+				var targets []ast.Expr
+				switch t := n.(type) {
+				case *ast.AssignStmt:
+					if t.Tok != token.DEFINE {
+						targets = t.Lhs
+					}
+				case *ast.IncDecStmt:
+					targets = []ast.Expr{t.X}
+				case *ast.UnaryExpr:
+					if t.Op == token.AND {
+						targets = []ast.Expr{t.X}
+					}
+				}
+				for _, l := range targets {
+					if id := root(l); id != nil && pkgVars[info.ObjectOf(id)] {
+						pos := p.Fset.Position(l.Pos())
+						out = append(out, fmt.Sprintf("%s in %s (%s:%d)", id.Name, fd.Name.Name, filepath.Base(pos.Filename), pos.Line))
+					}
+				}
+				return true
+			})
+		}
+	}
+	sort.Strings(out)
+	return out
+}
+
+// guardedUniverse: the predeclared identifiers whose meaning the rules rely on
+// (any, min, max, clear, print, … are not relied upon and may be shadowed, as the pinned tree does).
+var guardedUniverse = map[string]bool{
+	"nil": true, "true": true, "false": true, "iota": true, "len": true, "cap": true, "append": true, "copy": true, "make": true, "new": true,
+	"panic": true, "recover": true, "delete": true, "bool": true, "string": true, "byte": true, "rune": true, "error": true,
+	"int": true, "int8": true, "int16": true, "int32": true, "int64": true, "uint": true, "uint8": true, "uint16": true, "uint32": true, "uint64": true,
+	"uintptr": true, "float32": true, "float64": true,
+}
+
+// AllowedShadow: declarations present in the pinned tree that shadow a predeclared identifier, confirmed harmless
+// ("<pkgpath> <name>"; the shadowed name is not used as the builtin in that scope by any rule).
+var AllowedShadow = map[string]bool{}
+
 // Status of an obligation.
 type Status string
 
@@ -148,6 +238,38 @@ func (c *Ctx) Load() error {
 			return
 		}
 		sort.Slice(pkgs, func(i, j int) bool { return pkgs[i].PkgPath < pkgs[j].PkgPath })
+		for _, p := range pkgs {
+			// the analysis sees one build configuration: a file that is compiled only under some other GOOS/GOARCH/tag
+			// (or excluded from this one) would escape it, so the repository must not use build constraints
+			for _, f := range p.IgnoredFiles {
+				if strings.HasSuffix(f, ".go") && !strings.HasSuffix(f, "_test.go") {
+					c.Fail("LOAD", "file excluded by build constraints: "+strings.TrimPrefix(f, c.Repo+"/"), "a Go file of the repository is not part of the analysed build configuration", "", "S0")
+				}
+			}
+			for _, f := range p.Syntax {
+				for _, cg := range f.Comments {
+					if cg.Pos() > f.Package {
+						break
+					}
+					for _, cm := range cg.List {
+						if strings.HasPrefix(cm.Text, "//go:build") || strings.HasPrefix(cm.Text, "// +build") {
+							c.Fail("LOAD", "build constraint in "+c.PosStr(p.Fset, cm.Pos()), "a file with a build constraint is compiled only in some configurations; the analysis covers one", "", "S0")
+						}
+					}
+				}
+			}
+			if libPkgs[p.PkgPath] {
+				for _, w := range PackageVarWrites(p) {
+					c.Fail("LOAD", "package variable written in "+p.PkgPath+": "+w, "package-level state of a hand-written library (error values, tables) is modified after initialisation: what the analysed functions return or compare against is no longer what their source says", "", "S0")
+				}
+			}
+			for _, sh := range ShadowedUniverse(p) {
+				if AllowedShadow[p.PkgPath+" "+strings.SplitN(sh, " ", 2)[0]] {
+					continue
+				}
+				c.Fail("LOAD", "shadowed predeclared identifier "+sh+" in "+p.PkgPath, "a declaration shadows a predeclared identifier; rules that recognise builtins and basic types would be misled, and so would a reader", "", "S0")
+			}
+		}
 		c.Pkgs = pkgs
 		c.Fset = pkgs[0].Fset
 		c.Stats["packages"] = len(pkgs)
@@ -184,6 +306,30 @@ func (c *Ctx) SSAPkg(rel string) *ssa.Package {
 		p += "/" + rel
 	}
 	return c.SSAPkgs[p]
+}
+
+// ShadowedUniverse lists declarations in a package that shadow a predeclared identifier
+// (nil, true, len, append, panic, uint64, …). Several rules identify builtins and basic types
+// by these names after resolving callees; a shadowing declaration would change the meaning of
+// identical-looking code, so it is reported for every property (rule LOAD).
+func ShadowedUniverse(p *packages.Package) []string {
+	var out []string
+	if p.TypesInfo == nil {
+		return nil
+	}
+	for id, obj := range p.TypesInfo.Defs {
+		if obj == nil || obj.Parent() == nil { // fields and methods have no lexical parent
+			continue
+		}
+		if id.Name == "_" || types.Universe.Lookup(id.Name) == nil || !guardedUniverse[id.Name] {
+			continue
+		}
+		// receivers/params/locals count as well: they change what the name means in their scope
+		pos := p.Fset.Position(id.Pos())
+		out = append(out, fmt.Sprintf("%s (%s:%d)", id.Name, filepath.Base(pos.Filename), pos.Line))
+	}
+	sort.Strings(out)
+	return out
 }
 
 // PosStr renders a position relative to the repo.
@@ -567,6 +713,10 @@ func QualName(o types.Object) string {
 			}
 			return "(" + t.String() + ")." + f.Name()
 		}
+	}
+	// package-level variables holding functions are not the functions the rules mean
+	if v, ok := o.(*types.Var); ok && !v.IsField() && o.Pkg() != nil {
+		return "var " + o.Pkg().Path() + "." + o.Name()
 	}
 	if o.Pkg() != nil {
 		return o.Pkg().Path() + "." + o.Name()
